@@ -132,12 +132,13 @@ static std::string token(vf::Rng& r, int maxlen)
 	return s;
 }
 
-static std::string pctEncode(const std::string& s, bool form)
+static std::string pctEncode(const std::string& s, bool form, bool rawSubDelims = false)
 {
 	std::string o;
 	char b[8];
 	for (unsigned char ch : s) {
 		if (isalnum(ch) || ch == '-' || ch == '_' || ch == '.' || ch == '~') o += (char)ch;
+		else if (rawSubDelims && strchr("!$'()*+,;=:@", ch)) o += (char)ch;   // allowed unencoded in a path (RFC 3986 pchar): they mean themselves
 		else if (form && ch == ' ') o += '+';
 		else { snprintf(b, sizeof b, "%%%02X", ch); o += b; }
 	}
@@ -163,7 +164,7 @@ static void genRequestSide(vf::Rng& r, Plan& p, const std::string& id)
 		if (r.chance(0.4)) { static const char sp[] = " !$&'()*+,;=:@%\"<>[]^`{|}\x7f\xc3\xa9"; int k = r.range(1, 3); for (int j = 0; j < k; j++) seg += sp[r.below(sizeof(sp) - 1)]; }
 		if (seg.find("..") != std::string::npos) seg = "x";
 		p.path += "/" + seg;
-		p.target += "/" + pctEncode(seg, false);
+		p.target += "/" + pctEncode(seg, false, r.chance(0.5));
 	}
 	if (r.chance(0.6)) {
 		int nq = r.range(1, 3);
@@ -347,9 +348,14 @@ static void runLib(vf::Ctx& c, int nreq, int nthreads, int forceKind)
 	std::vector<Var> jsons(nreq);
 	std::atomic<int> next(0);
 	std::vector<std::thread> th;
+	// every 16th case runs with stdin closed, so that a socket of the exchange gets descriptor number 0
+	int savedStdin = -1;
+	bool stdinClosed = c.idx % 16 == 5;
+	if (stdinClosed) { savedStdin = dup(0); close(0); c.count("lib.cases_with_descriptor_0_free"); }
 	for (int t = 0; t < nthreads; t++)
 		th.emplace_back([&]() { for (;;) { int i = next++; if (i >= nreq) break; errs[i] = doLibRequest(plans[i], ids[i], codes[i], bodies[i], hdrs[i], plans[i].kind == K_JSON ? &jsons[i] : 0); } });
 	for (auto& t : th) t.join();
+	if (stdinClosed && savedStdin >= 0) { dup2(savedStdin, 0); close(savedStdin); }
 	for (int i = 0; i < nreq; i++) {
 		judge(c, plans[i], ids[i], codes[i], bodies[i], hdrs[i], errs[i], "lib-client", plans[i].kind == K_JSON ? &jsons[i] : 0);
 		if (plans[i].file.size()) unlink(plans[i].file.c_str());
@@ -500,6 +506,8 @@ static void mode_raw(vf::Ctx& c)
 	std::vector<Plan> plans(k);
 	std::vector<std::string> ids(k);
 	std::string stream;
+	bool http10 = c.rng.chance(0.15);
+	if (http10) c.count("raw.http10_keep_alive_connections");
 	for (int i = 0; i < k; i++) {
 		ids[i] = newId(c, i);
 		Plan& p = plans[i];
@@ -508,12 +516,12 @@ static void mode_raw(vf::Ctx& c)
 		genResponseSide(c.rng, p, kinds[c.rng.below(5)]);
 		prepFile(p, ids[i]);
 		if (p.kind == K_FILE && p.resBody.size() >= 3 && c.rng.chance(0.7)) { int n = (int)p.resBody.size(); p.rangeB = c.rng.range(0, n - 2); p.rangeE = c.rng.range(p.rangeB + 1, n - 1); if (c.rng.chance(0.5) && p.rangeE == n - 1 && n > 3) p.rangeE = n - 2; }
-		std::string req = p.method + " " + p.target + " HTTP/1.1\r\nHost: 127.0.0.1\r\n";
+		std::string req = p.method + " " + p.target + (http10 ? " HTTP/1.0\r\nHost: 127.0.0.1\r\n" : " HTTP/1.1\r\nHost: 127.0.0.1\r\n");
 		for (auto& h : p.reqHeaders) req += h.first + (c.rng.chance(0.3) ? ":" : ": ") + h.second + "\r\n";
 		if (p.rangeB >= 0) req += vf::fmt("Range: bytes=%d-%d\r\n", p.rangeB, p.rangeE);
-		if (i + 1 < k && c.rng.chance(0.5)) req += "Connection: keep-alive\r\n";
+		if (i + 1 < k && (http10 || c.rng.chance(0.5))) req += "Connection: keep-alive\r\n";   // an HTTP/1.0 client has to ask for the connection to be kept
 		if (i + 1 == k) req += "Connection: close\r\n";
-		if (p.reqBody.size() && c.rng.chance(0.5)) {
+		if (p.reqBody.size() && !http10 && c.rng.chance(0.5)) {
 			req += "Transfer-Encoding: chunked\r\n\r\n";
 			size_t off = 0;
 			while (off < p.reqBody.size()) { size_t n = std::min(p.reqBody.size() - off, (size_t)(c.rng.chance(0.3) ? c.rng.range(1, 30) : c.rng.range(1, 40000))); req += vf::fmt("%x\r\n", (unsigned)n) + p.reqBody.substr(off, n) + "\r\n"; off += n; }
